@@ -60,10 +60,13 @@ UNARY = {
     "arctanh": libsbml.AST_FUNCTION_ARCTANH,
     "log": libsbml.AST_FUNCTION_LN,
     "log10": libsbml.AST_FUNCTION_LOG,
+    "exp": libsbml.AST_FUNCTION_EXP,
+    "floor": libsbml.AST_FUNCTION_FLOOR,
 }
 
 BINARY = {
     "power": libsbml.AST_POWER,
+    "pow": libsbml.AST_POWER,
 }
 
 NARY = {
@@ -173,10 +176,22 @@ def _convert_ifexp(node: ast.IfExp) -> libsbml.ASTNode:
     true = _convert_node(node.body)
     false = _convert_node(node.orelse)
 
+    # piecewise(value, condition, otherwise)
     sbml_node = libsbml.ASTNode(libsbml.AST_FUNCTION_PIECEWISE)
-    sbml_node.addChild(condition)
     sbml_node.addChild(true)
+    sbml_node.addChild(condition)
     sbml_node.addChild(false)
+    return sbml_node
+
+
+def _unary_node(name: str, typ: int, node: ast.Call) -> libsbml.ASTNode:
+    sbml_node = libsbml.ASTNode(typ)
+    # log and root carry their base / degree as first child
+    if name in ("log10", "sqrt"):
+        first = libsbml.ASTNode(libsbml.AST_INTEGER)
+        first.setValue(10 if name == "log10" else 2)
+        sbml_node.addChild(first)
+    sbml_node.addChild(_convert_node(node.args[0]))
     return sbml_node
 
 
@@ -184,9 +199,7 @@ def _convert_direct_call(node: ast.Call) -> libsbml.ASTNode:
     func = cast(ast.Name, node.func).id
 
     if (typ := UNARY.get(func)) is not None:
-        sbml_node = libsbml.ASTNode(typ)
-        sbml_node.addChild(_convert_node(node.args[0]))
-        return sbml_node
+        return _unary_node(func, typ, node)
     if (typ := BINARY.get(func)) is not None:
         sbml_node = libsbml.ASTNode(typ)
         sbml_node.addChild(_convert_node(node.args[0]))
@@ -198,11 +211,9 @@ def _convert_direct_call(node: ast.Call) -> libsbml.ASTNode:
             sbml_node.addChild(_convert_node(arg))
         return sbml_node
 
-    # General function call
-    sbml_node = libsbml.ASTNode(libsbml.AST_FUNCTION)
-    for arg in node.args:
-        sbml_node.addChild(_convert_node(arg))
-    return sbml_node
+    # Calls to other functions cannot be represented (yet)
+    msg = f"Function call '{func}'"
+    raise NotImplementedError(msg)
 
 
 def _convert_library_call(node: ast.Call) -> libsbml.ASTNode:
@@ -212,9 +223,7 @@ def _convert_library_call(node: ast.Call) -> libsbml.ASTNode:
 
     if parent in ("math", "np", "numpy"):
         if (typ := UNARY.get(attr)) is not None:
-            sbml_node = libsbml.ASTNode(typ)
-            sbml_node.addChild(_convert_node(node.args[0]))
-            return sbml_node
+            return _unary_node(attr, typ, node)
         if (typ := BINARY.get(attr)) is not None:
             sbml_node = libsbml.ASTNode(typ)
             sbml_node.addChild(_convert_node(node.args[0]))
@@ -226,11 +235,9 @@ def _convert_library_call(node: ast.Call) -> libsbml.ASTNode:
                 sbml_node.addChild(_convert_node(arg))
             return sbml_node
 
-    # General library call
-    sbml_node = libsbml.ASTNode(libsbml.AST_FUNCTION)
-    for arg in node.args:
-        sbml_node.addChild(_convert_node(arg))
-    return sbml_node
+    # Other library functions cannot be represented (yet)
+    msg = f"Function call '{parent}.{attr}'"
+    raise NotImplementedError(msg)
 
 
 def _convert_call(node: ast.Call) -> libsbml.ASTNode:
@@ -245,30 +252,37 @@ def _convert_call(node: ast.Call) -> libsbml.ASTNode:
 
 
 def _convert_compare(node: ast.Compare) -> libsbml.ASTNode:
-    # FIXME: handle cases such as x < y < z
+    # x < y < z is (x < y) and (y < z)
+    comparisons = []
+    left_node = node.left
+    for py_op, right_node in zip(node.ops, node.comparators, strict=True):
+        match py_op:
+            case ast.Eq():
+                op = libsbml.AST_RELATIONAL_EQ
+            case ast.NotEq():
+                op = libsbml.AST_RELATIONAL_NEQ
+            case ast.Lt():
+                op = libsbml.AST_RELATIONAL_LT
+            case ast.LtE():
+                op = libsbml.AST_RELATIONAL_LEQ
+            case ast.Gt():
+                op = libsbml.AST_RELATIONAL_GT
+            case ast.GtE():
+                op = libsbml.AST_RELATIONAL_GEQ
+            case _:
+                raise NotImplementedError(type(py_op))
 
-    left = _convert_node(node.left)
-    right = _convert_node(node.comparators[0])
+        sbml_node = libsbml.ASTNode(op)
+        sbml_node.addChild(_convert_node(left_node))
+        sbml_node.addChild(_convert_node(right_node))
+        comparisons.append(sbml_node)
+        left_node = right_node
 
-    match node.ops[0]:
-        case ast.Eq():
-            op = libsbml.AST_RELATIONAL_EQ
-        case ast.NotEq():
-            op = libsbml.AST_RELATIONAL_NEQ
-        case ast.Lt():
-            op = libsbml.AST_RELATIONAL_LT
-        case ast.LtE():
-            op = libsbml.AST_RELATIONAL_LEQ
-        case ast.Gt():
-            op = libsbml.AST_RELATIONAL_GT
-        case ast.GtE():
-            op = libsbml.AST_RELATIONAL_GEQ
-        case _:
-            raise NotImplementedError(type(node.ops[0]))
-
-    sbml_node = libsbml.ASTNode(op)
-    sbml_node.addChild(left)
-    sbml_node.addChild(right)
+    if len(comparisons) == 1:
+        return comparisons[0]
+    sbml_node = libsbml.ASTNode(libsbml.AST_LOGICAL_AND)
+    for comparison in comparisons:
+        sbml_node.addChild(comparison)
     return sbml_node
 
 
@@ -319,7 +333,12 @@ def _tree_to_sbml(
     return _handle_body(tree.body)
 
 
-def _sbmlify_fn(fn: Callable, user_args: list[str]) -> libsbml.ASTNode:
+def _sbmlify_fn(
+    fn: Callable, user_args: list[str], model: Model | None = None
+) -> libsbml.ASTNode:
+    # Names inside the math have to be the ids the components were given
+    if model is not None:
+        user_args = [_sbml_id_of(model, i) for i in user_args]
     return _tree_to_sbml(get_fn_ast(fn), args=user_args)
 
 
@@ -339,6 +358,19 @@ def _convert_id_to_sbml(id_: str, prefix: str) -> str:
     if not new_id[0].isalpha():
         return f"{prefix}_{new_id}"
     return new_id
+
+
+def _sbml_id_of(model: Model, name: str) -> str:
+    """Id under which a model component is written."""
+    if name in model.get_raw_variables(as_copy=False):
+        return _convert_id_to_sbml(id_=name, prefix="CPD")
+    if name in model.get_raw_parameters(as_copy=False):
+        return _convert_id_to_sbml(id_=name, prefix="PAR")
+    if name in model.get_raw_derived(as_copy=False):
+        return _convert_id_to_sbml(id_=name, prefix="AR")
+    if name in model.get_raw_reactions(as_copy=False):
+        return _convert_id_to_sbml(id_=name, prefix="RXN")
+    return name
 
 
 def _create_sbml_document() -> libsbml.SBMLDocument:
@@ -451,21 +483,25 @@ def _create_sbml_variables(
         # cpd.setUnit() # FIXME: implement
         if isinstance((init := variable.initial_value), InitialAssignment):
             ar = sbml_model.createInitialAssignment()
-            ar.setId(_convert_id_to_sbml(id_=name, prefix="IA"))
-            ar.setName(_convert_id_to_sbml(id_=name, prefix="IA"))
-            ar.setVariable(_convert_id_to_sbml(id_=name, prefix="IA"))
-            ar.setMath(_sbmlify_fn(init.fn, init.args))
+            ar.setId(_convert_id_to_sbml(id_=f"IA_{name}", prefix="IA"))
+            ar.setName(_convert_id_to_sbml(id_=f"IA_{name}", prefix="IA"))
+            ar.setSymbol(_convert_id_to_sbml(id_=name, prefix="CPD"))
+            ar.setMath(_sbmlify_fn(init.fn, init.args, model))
         else:
             cpd.setInitialConcentration(float(init))
 
 
 def _create_sbml_derived_variables(*, model: Model, sbml_model: libsbml.Model) -> None:
     for name, dv in model.get_derived_variables().items():
+        # The variable of a rule has to exist
+        par = sbml_model.createParameter()
+        par.setId(_convert_id_to_sbml(id_=name, prefix="AR"))
+        par.setConstant(False)
         sbml_ar = sbml_model.createAssignmentRule()
         sbml_ar.setId(_convert_id_to_sbml(id_=name, prefix="AR"))
         sbml_ar.setName(_convert_id_to_sbml(id_=name, prefix="AR"))
         sbml_ar.setVariable(_convert_id_to_sbml(id_=name, prefix="AR"))
-        sbml_ar.setMath(_sbmlify_fn(dv.fn, dv.args))
+        sbml_ar.setMath(_sbmlify_fn(dv.fn, dv.args, model))
         # cpd.setUnit() # FIXME: implement
 
 
@@ -473,13 +509,21 @@ def _create_derived_parameter(
     sbml_model: libsbml.Model,
     name: str,
     dp: Derived,
+    model: Model | None = None,
+    *,
+    declare: bool = True,
 ) -> None:
     """Create a derived parameter for the sbml model."""
+    if declare:
+        # The variable of a rule has to exist
+        par = sbml_model.createParameter()
+        par.setId(_convert_id_to_sbml(id_=name, prefix="AR"))
+        par.setConstant(False)
     ar = sbml_model.createAssignmentRule()
     ar.setId(_convert_id_to_sbml(id_=name, prefix="AR"))
     ar.setName(_convert_id_to_sbml(id_=name, prefix="AR"))
     ar.setVariable(_convert_id_to_sbml(id_=name, prefix="AR"))
-    ar.setMath(_sbmlify_fn(dp.fn, dp.args))
+    ar.setMath(_sbmlify_fn(dp.fn, dp.args, model))
     # cpd.setUnit() # FIXME: implement
 
 
@@ -502,17 +546,17 @@ def _create_sbml_parameters(
 
         if isinstance((init := value.value), InitialAssignment):
             ar = sbml_model.createInitialAssignment()
-            ar.setId(_convert_id_to_sbml(id_=name, prefix="IA"))
-            ar.setName(_convert_id_to_sbml(id_=name, prefix="IA"))
-            ar.setVariable(_convert_id_to_sbml(id_=name, prefix="IA"))
-            ar.setMath(_sbmlify_fn(init.fn, init.args))
+            ar.setId(_convert_id_to_sbml(id_=f"IA_{name}", prefix="IA"))
+            ar.setName(_convert_id_to_sbml(id_=f"IA_{name}", prefix="IA"))
+            ar.setSymbol(_convert_id_to_sbml(id_=name, prefix="PAR"))
+            ar.setMath(_sbmlify_fn(init.fn, init.args, model))
         else:
             k.setValue(float(init))
 
 
 def _create_sbml_derived_parameters(*, model: Model, sbml_model: libsbml.Model) -> None:
     for name, dp in model.get_derived_parameters().items():
-        _create_derived_parameter(sbml_model, name, dp)
+        _create_derived_parameter(sbml_model, name, dp, model)
 
 
 def _create_sbml_reactions(
@@ -541,10 +585,14 @@ def _create_sbml_reactions(
                 case Derived():
                     # SBML uses species references for derived stoichiometries
                     # So we need to create a assignment rule and then refer to it
-                    reference = f"{compound_id}ref"
-                    _create_derived_parameter(sbml_model, reference, factor)
+                    # The rule gives the signed coefficient, so the species is
+                    # always referenced as a product
+                    reference = f"{name}_{compound_id}_ref"
+                    _create_derived_parameter(
+                        sbml_model, reference, factor, model, declare=False
+                    )
 
-                    sref = sbml_rxn.createReactant()
+                    sref = sbml_rxn.createProduct()
                     sref.setId(_convert_id_to_sbml(id_=reference, prefix="CPD"))
                     sref.setSpecies(_convert_id_to_sbml(id_=compound_id, prefix="CPD"))
                 case _:
@@ -554,7 +602,7 @@ def _create_sbml_reactions(
             sref = sbml_rxn.createModifier()
             sref.setSpecies(_convert_id_to_sbml(id_=compound_id, prefix="CPD"))
 
-        sbml_rxn.createKineticLaw().setMath(_sbmlify_fn(rxn.fn, rxn.args))
+        sbml_rxn.createKineticLaw().setMath(_sbmlify_fn(rxn.fn, rxn.args, model))
 
 
 def _model_to_sbml(
